@@ -390,6 +390,60 @@ def main() -> int:
                 n_ok += 1
                 if len(rep.samples) < 5 and kw:
                     rep.sample({"call": fp, "agrees_with": {k2: repr(v2) for k2, v2 in bound.arguments.items() if k2 != "self"}})
+        # ---- the same call shapes as the SECOND call of a block, after a call that passed every parameter explicitly:
+        # what an earlier call bound must not leak into parameters this call omits
+        if sp["call"].startswith("d.") and not sp["exprcall"]:
+            usable = [p.name for p in sig.parameters.values() if p.name in sp["values"] and p.name not in sp["skip"]]
+            full = ", ".join(f"{n}={sp['values'][n]}" for n in usable)
+            omitting = [sh for sh in all_shapes if len(sh[1]) + len(sh[2]) < len(usable)][:: max(1, len(all_shapes) // 10 or 1)][:12]
+            for args_text, pos, kw in omitting:
+                a = [vals[n] for n in pos]
+                k = {n: vals[n] for n in kw}
+                try:
+                    bound = sig.bind(None, *a, **k) if "self" in sig.parameters else sig.bind(*a, **k)
+                    full_ok = sig.bind(None, **{n: vals[n] for n in usable}) if "self" in sig.parameters else sig.bind(**{n: vals[n] for n in usable})
+                except TypeError:
+                    continue
+                bound.apply_defaults()
+                for wrapper in ("while True:\n    {a}\n    {b}\n    sleep(5)\n", "for q in range(2):\n    {a}\n    {b}\n", "if 1 == 1:\n    {a}\n    {b}\n"):
+                    script = IMPORTS + sp["prelude"] + wrapper.format(a=sp["call"].format(args=full), b=sp["call"].format(args=args_text))
+                    try:
+                        program = parse(script)
+                    except (ValueError, SyntaxError):
+                        rep.count("sequence_shapes_rejected")
+                        continue
+                    found = []
+
+                    def walk(nodes):
+                        for n in nodes:
+                            if type(n).__name__ == sp["node"]:
+                                found.append(n)
+                            for attr in ("body", "else_body", "orelse"):
+                                sub = getattr(n, attr, None)
+                                if isinstance(sub, list):
+                                    walk(sub)
+                            for br in getattr(n, "branches", []) or []:
+                                walk(getattr(br, "body", []))
+
+                    walk(program.setup_body)
+                    walk(program.loop_body)
+                    rep.count("sequence_shapes")
+                    if len(found) < 2:
+                        continue
+                    node = found[1]
+                    for field, (param, conv) in sp["fields"].items():
+                        if param not in bound.arguments:
+                            continue
+                        exp = conv_expected(conv, bound.arguments[param])
+                        got = norm_node_value(getattr(node, field))
+                        if not same(exp, got, conv):
+                            key = f"{sp['name']}:{param}"
+                            fid = KNOWN.get(key)
+                            if fid and fid in rep.open_findings:
+                                continue
+                            rep.violation(f"{sp['name']}({args_text}) as the second call of a block (after {sp['name']}({full})): parameter `{param}` "
+                                          f"bound to {got!r}, Python binds {exp!r}", {"script.py": script}, key="sequence:" + key)
+                            n_bad += 1
         per_callable[sp["name"]] = {"agree": n_ok, "rejected": n_rej, "disagree": n_bad}
     rep.extra["per_callable"] = per_callable
     rep.extra["callables"] = len(per_callable)
